@@ -6,10 +6,10 @@ class C23(dfir.DfirSpec):
     tag = "C23"
     want_flat = True
     props_vo = "theories/Props/C23.vo"
-    theorems = ["C23_handoff_complete"]
+    theorems = ["C23_handoff_complete", "C23_same_tick_delivery"]
     modes = ("ticks", "avail")
     level = "other"
-    explanation = 'Not category proof: the theorem interp_partitioned = denote_flat (induction along subgraph_toposort over a WellFormed partitioned graph) is not proved; only the per-handoff lemma C23_handoff_complete is. The order of subgraphs is taken from the real partitioner (C18).'
+    explanation = 'Not category proof: the whole-program theorem interp_partitioned = denote_flat (induction along subgraph_toposort over a WellFormed partitioned graph, merging blocks across handoffs) is not proved; proved are the per-handoff statements C23_same_tick_delivery and C23_handoff_complete. The order of subgraphs is taken from the real partitioner (C18).'
     assumptions = [
         "denotation of the flat graph = the same Coq interpreter run on one subgraph holding every operator in "
         "topological order with same-tick handoffs as plain wires (lowered by tools/dfir.py from the real meta graph)",
